@@ -128,10 +128,20 @@ func genC15(t *rapid.T, thorough bool) C15Case {
 	if rapid.IntRange(0, 59).Draw(t, "withFullNode") == 31 {
 		fullAt = rapid.IntRange(0, n-1).Draw(t, "fullAt")
 	}
+	longAt := -1
+	if rapid.IntRange(0, 9).Draw(t, "withLongKey") == 5 {
+		longAt = rapid.IntRange(0, n-1).Draw(t, "longAt")
+	}
 	for i := 0; i < n; i++ {
 		op := TrieOp{Op: rapid.SampledFrom(kinds).Draw(t, "op")}
 		if i == fullAt {
 			op = TrieOp{Op: "addall", S: str(0, 2).Draw(t, "prefix")}
+		}
+		if i == longAt {
+			// a key much longer than any fixed-size traversal stack
+			n := rapid.SampledFrom([]int{15, 16, 17, 31, 32, 33, 63, 64, 65, 130, 300}).Draw(t, "longLen")
+			unit := str(1, 3).Draw(t, "longUnit")
+			op = TrieOp{Op: "add", S: gen.B(bytes.Repeat(unit, n/len(unit)+1)[:n])}
 		}
 		switch op.Op {
 		case "add":
@@ -420,6 +430,15 @@ func exhaustiveC15(thorough bool, emit func(C15Case) bool) {
 	}
 	if !run(1, false) || !run(2, false) || !run(2, true) {
 		return
+	}
+	// keys longer than any fixed-size traversal stack, with branches at several depths
+	for _, n := range []int{15, 16, 17, 31, 32, 33, 34, 63, 64, 65, 66, 129, 257} {
+		long := gen.B(bytes.Repeat([]byte("ab"), n/2+1)[:n])
+		h := []TrieOp{{Op: "add", S: long}, {Op: "add", S: append(bytes.Clone(long[:n-1]), 'z')}, {Op: "add", S: append(bytes.Clone(long[:n/2]), 'y', 'y')},
+			{Op: "add", S: append(bytes.Clone(long), 'q', 'r')}, {Op: "del", S: long[:n-1]}, {Op: "add", S: gen.B("b")}}
+		if !emit(C15Case{Alphabet: gen.B("ab"), Ops: h}) || !emit(C15Case{Alphabet: gen.B("ab"), Ops: h, Rebuild: true}) {
+			return
+		}
 	}
 	// nodes with a child for every byte value
 	for _, h := range [][]TrieOp{
